@@ -1,28 +1,46 @@
+// pvcheck runs one property check: pvcheck <property> <quick|thorough>
 package main
 
 import (
 	"fmt"
 	"os"
+	"strconv"
 
-	"verif/engine/interp"
+	"verif/engine/checks"
 )
 
 func main() {
-	p, err := interp.LoadProgram("/verif/harness", []string{"./hz"}, "github.com/huderlem/poryscript")
+	if len(os.Args) < 3 {
+		fmt.Fprintln(os.Stderr, "usage: pvcheck <property> <quick|thorough> | pvcheck <property> --replay <file>")
+		os.Exit(2)
+	}
+	prop, tier := os.Args[1], os.Args[2]
+	if tier == "--replay" {
+		os.Exit(checks.ReplayFile(prop, os.Args[3]))
+	}
+	if t := os.Getenv("VERIF_TIER"); t != "" && tier == "" {
+		tier = t
+	}
+	seed := int64(0)
+	if s := os.Getenv("VERIF_SEED"); s != "" {
+		seed, _ = strconv.ParseInt(s, 10, 64)
+	}
+	run, ok := checks.Checks[prop]
+	if !ok {
+		fmt.Fprintln(os.Stderr, "unknown property", prop)
+		os.Exit(2)
+	}
+	env, err := checks.NewEnv(tier, seed)
 	if err != nil {
-		fmt.Fprintln(os.Stderr, err)
+		fmt.Fprintln(os.Stderr, "CHECK-ERROR:", err)
 		os.Exit(3)
 	}
-	fmt.Println("loaded in", p.LoadTime)
-	e := interp.NewEngine(p)
-	fn := e.Func("verif/harness/hz", "CompileSimple")
-	src := os.Args[1]
-	b, _ := os.ReadFile(src)
-	res := e.Call(nil, fn, string(b), true, true, "x.pory", interp.MkSlice(), interp.MkSlice(), interp.MkSlice(), false)
-	t := interp.Tuple(res)
-	fmt.Println(interp.ToString(t[0]))
-	if !interp.IsNilIface(t[1]) {
-		txt, _ := e.ErrorText(nil, t[1])
-		fmt.Println("ERR:", interp.ToString(txt))
-	}
+	rep := checks.NewReport(prop, tier, seed)
+	code := 3
+	func() {
+		defer env.Close()
+		run(env, rep)
+		code = rep.Finish(env)
+	}()
+	os.Exit(code)
 }
